@@ -25,6 +25,11 @@ def gen(rng, tier):
         nuni = rng.choice([1, 2, bound, bound + 1, 2 * bound + 3])
         uni = [rng.choice([rng.randrange(0, 50), rng.choice(STRS), f's{rng.randrange(100)}']) for _ in range(max(1, nuni))]
         n = rng.randrange(1, 120)
+        if rng.random() < 0.5:
+            # several counters alive in one process (the pipeline keeps one per column), fed interleaved
+            k = rng.choice([2, 2, 3])
+            bounds = [bound] + [rng.choice([1, 2, 3, 5, 10, 50, None]) for _ in range(k - 1)]
+            return {'counter': True, 'multi': True, 'bounds': bounds, 'bound': bound, 'items': [[rng.randrange(k), rng.choice(uni)] for _ in range(n)]}
         return {'counter': True, 'bound': bound, 'items': [rng.choice(uni) for _ in range(n)]}
     depth = rng.choice([1, 1, 2, 3, 6, 8])
     width = rng.choice([1, 2, 3, 5, 8, 16, 64, 1000, 2 ** 15])
@@ -36,7 +41,10 @@ def gen(rng, tier):
             ops.append(['add', gen_item(rng, universe), rng.choice([1, 1, 1, 0, 2, 5, 1000, 10 ** 6])])
         else:
             ops.append(['batch_add', [gen_item(rng, universe) for _ in range(rng.randrange(0, 6))], rng.choice([1, 1, 3])])
-    return {'depth': depth, 'width': width, 'np_seed': rng.randrange(2 ** 32), 'ops': ops}
+    h = {'depth': depth, 'width': width, 'np_seed': rng.randrange(2 ** 32), 'ops': ops}
+    if rng.random() < 0.3:
+        h['decoy'] = True          # a second sketch alive in the same process
+    return h
 
 
 def candidates(h):
@@ -61,12 +69,14 @@ def candidates(h):
         out.append(dict(h, depth=1))
     if h['np_seed'] != 0:
         out.append(dict(h, np_seed=0))
+    if h.get('decoy'):
+        out.append({k: v for k, v in h.items() if k != 'decoy'})
     return out
 
 
 def signature(h, v):
     if h.get('counter'):
-        return ('counter', h['bound'], v.get('reached_bound'))
+        return ('counter', h['bound'], v.get('reached_bound'), v.get('counters', 1))
     w = h['width']
     return ('cms', h['depth'], 'w1' if w == 1 else 'w<=8' if w <= 8 else 'w<=64' if w <= 64 else 'wide', h.get('hashseed'), h['np_seed'] % 4)
 
